@@ -214,6 +214,7 @@ DEFAULT_WEIGHTS = {
     "simplify": 4, "downsize": 2, "branch": 5, "probe": 12, "forget": 2, "gc": 1, "backend_downsize": 1,
     # off by default, switched on by profiles
     "merge": 0, "combine": 0, "split": 0, "unsat_core": 0, "pickle": 0, "pickle_expr": 0, "g_truth": 0, "new": 0,
+    "add_replacement": 0,
 }
 
 QUERY_KINDS = ("sat", "probe", "eval", "batch_eval", "min", "max", "solution", "is_true", "is_false")
@@ -261,7 +262,7 @@ class HistoryGen:
     def emit(self, op):
         """append the op and apply its structural effect to the dry machine"""
         self.ops.append(op)
-        if op["op"] in ("new", "branch", "drop", "pickle", "add", "merge", "combine"):
+        if op["op"] in ("new", "branch", "drop", "pickle", "add", "merge", "combine", "add_replacement"):
             from .machine import _Skip
 
             try:
@@ -443,6 +444,7 @@ class HistoryGen:
             q = self.query_op(kind, hi, h)
             self.emit(q)
             self.kill_and_requery(q, hi, h)
+            self.echo(q, hi, h, live)
             return
         if kind in ("simplify", "downsize"):
             op.update(op=kind)
@@ -483,6 +485,12 @@ class HistoryGen:
             op.update(op="split")
         elif kind == "unsat_core":
             op.update(op="unsat_core")
+        elif kind == "add_replacement":
+            if h.cls != "SolverReplacement":
+                return
+            op = self.add_replacement_op(hi, h)
+            if op is None:
+                return
         elif kind == "pickle":
             op.update(op="pickle", proto=r.choice([2, 4, 5]), mode=r.choice(self.p.get("pickle_modes", ["replace", "twin"])))
             if op["mode"] == "twin" and len(live) >= self.max_handles + 1:
@@ -508,6 +516,38 @@ class HistoryGen:
         else:
             raise AssertionError(kind)
         self.emit(op)
+
+    def echo(self, q, hi, h, live):
+        """the same question to a relative (a branch, the parent, a sibling): state shared between solvers that should
+        be isolated shows when the second one answers from what the first one left behind"""
+        r = self.r
+        if len(live) < 2 or not r.chance(self.p.get("echo_pct", 8)):
+            return
+        same = [j for j, x in enumerate(live) if j != hi and x.cls == h.cls]
+        if not same:
+            return
+        q2 = dict(q)
+        q2["h"] = r.choice(same)
+        q2.pop("probe", None)
+        self.emit(q2)
+        if r.chance(40):
+            self.emit(dict(q))
+
+    def add_replacement_op(self, hi, h):
+        """SolverReplacement.add_replacement(var, const) on a variable no constraint of this solver mentions yet (then
+        it means exactly `var == const`)"""
+        from .spec import spec_vars
+
+        r = self.r
+        used = set()
+        for c in h.lineage:
+            spec_vars(c, used)
+        free = [n for n in self.order if n not in used and self.vars[n] > 0 and n != self.flag]
+        if not free:
+            return None
+        n = r.choice(free)
+        w = self.vars[n]
+        return {"op": "add_replacement", "h": hi, "var": n, "value": r.below(1 << w)}
 
     def kill_and_requery(self, q, hi, h):
         """Invalidation pattern: exclude the value a query has just returned (the optimum, or one of the evaluated
@@ -708,7 +748,8 @@ PROFILES = {
         "frontends": [("SolverReplacement", 5), ("SolverHybrid", 5)],
         "length": (3, 30),
         "hybrid_exact": [None, None, True],
-        "weights": {"pickle": 2, "downsize": 4, "branch": 6},
+        "echo_pct": 20,
+        "weights": {"pickle": 2, "downsize": 4, "branch": 6, "add_replacement": 3},
         "pickle_modes": ["replace"],
     },
     "C13approx": {
@@ -735,6 +776,21 @@ PROFILES = {
         "length": (3, 25),
         "weights": {"batch_eval": 2, "branch": 4, "simplify": 1},
     },
+    "C18approx": {   # approximate frontends: an unpickled solver must be as precise as the original (twin equality)
+        "frontends": [("SolverHybrid", 5), ("SolverReplacementVSA", 3), ("SolverVSA", 1)],
+        "kw_for": {"SolverHybrid": [{}, {"approximate_first": True}]},
+        "hybrid_exact": [False, False, None],
+        "all_approx": True,
+        "approx_ops_allowed": APPROX_CORE_OPS,
+        "ops_allowed": APPROX_CORE_OPS,
+        "approx_simple_constraints": True,
+        "extra_pct": 5,
+        "length": (4, 22),
+        "weights": {"pickle": 16, "branch": 4, "batch_eval": 1, "simplify": 1, "forget": 0},
+        "pickle_modes": ["twin", "twin", "replace"],
+        "never_swarm_out": ("pickle",),
+        "max_handles": 6,
+    },
     "C18fresh": {
         "frontends": ALL_EXACT + [("SolverVSA", 1)],
         "length": (5, 24),
@@ -751,6 +807,7 @@ PROFILES = {
         "pickle_modes": ["replace"],
         "never_swarm_out": ("branch",),
         "sweep_pct": 70,
+        "echo_pct": 30,
         "max_handles": 6,
     },
     "C15": {
@@ -767,7 +824,8 @@ PROFILES = {
         "length": (3, 30),
         "keep_sat_pct": 25,
         "weights": {"unsat_core": 18, "add": 30, "branch": 6, "simplify": 5, "eval": 6, "min": 3, "max": 3, "solution": 3,
-                    "batch_eval": 2, "probe": 5},
+                    "batch_eval": 2, "probe": 5, "split": 4, "merge": 3, "combine": 3},
+        "max_handles": 6,
         "never_swarm_out": ("unsat_core",),
         "lru_sizes": [4, 16, 64, 10000],
     },
@@ -807,7 +865,7 @@ PROFILES = {
     "C18": {
         "frontends": ALL_EXACT + [("SolverVSA", 1)],
         "length": (4, 30),
-        "weights": {"pickle": 14, "pickle_expr": 5, "branch": 6},
+        "weights": {"pickle": 14, "pickle_expr": 5, "branch": 6, "add_replacement": 2},
         "never_swarm_out": ("pickle",),
         "approx_ops_allowed": APPROX_CORE_OPS,
         "approx_simple_constraints": True,
